@@ -181,6 +181,30 @@ func groupsFor(refLen int, single bool) [][]samRec {
 			}
 		}
 	}
+	// groups of three records in every file order (a record that ends early listed between two that end later, two
+	// records that cover a column the third does not, ...): flattening a column is a function of the SET of its symbols
+	var small []samRec
+	for _, pos := range []int{0, 2, 4} {
+		for ci, cg := range []string{"2M", "3M", "1M1D1M"} {
+			if pos+cigarRefLen(cg) > refLen {
+				continue
+			}
+			alpha := "ACGT"
+			if (ci+pos)%2 == 1 {
+				alpha = "TGCA"
+			}
+			small = append(small, samRec{Name: "q", Pos: pos, Cigar: cg, Seq: seqFor(cg, alpha)})
+		}
+	}
+	for _, a := range small {
+		for _, b := range small {
+			for _, d := range small {
+				if a.Pos != b.Pos && b.Pos != d.Pos && a.Pos != d.Pos {
+					out = append(out, []samRec{a, b, d})
+				}
+			}
+		}
+	}
 	return out
 }
 
